@@ -72,7 +72,7 @@ theorem C09_empty_window_reports_nothing :
 /-- **C09 (grid)**: the evaluation times are start + k·step ≤ end -/
 theorem C09_grid_spec :
     ∀ (start end_ step : Int),
-      0 < step → ∀ (T : Int), T ∈ grid start end_ step ↔ ∃ (k : Nat), T = start + step * ↑k ∧ T ≤ end_ :=
+      0 < step → ∀ (T : Int), T ∈ grid start end_ step ↔ ∃ (k : Nat), T = start + step * (↑k : Int) ∧ T ≤ end_ :=
   @grid_spec
 
 /-- the grid is increasing (hypothesis of the refinement) -/
@@ -89,14 +89,15 @@ theorem C09_grid_length :
 /-- count_over_time is the number of samples of the series in the window -/
 theorem C09_count_is_group_size :
     ∀ (param : Option Rat) (rangeNs : Int) (hasUnwrap : Bool) (vs : List Val),
-      aggregate RangeOp.count param rangeNs hasUnwrap vs = Val.q ↑vs.length :=
+      aggregate RangeOp.count param rangeNs hasUnwrap vs = Val.q (↑vs.length : Rat) :=
   @count_is_group_size
 
 /-- rate = count / range in seconds -/
 theorem C09_rate_is_count_over_range :
     ∀ (param : Option Rat) (rangeNs : Int),
       rangeNs ≠ 0 →
-        ∀ (vs : List Val), aggregate RangeOp.rate param rangeNs false vs = Val.q (↑vs.length / (↑rangeNs / 1000000000)) :=
+        ∀ (vs : List Val),
+          aggregate RangeOp.rate param rangeNs false vs = Val.q ((↑vs.length : Rat) / ((↑rangeNs : Rat) / 1000000000)) :=
   @rate_is_count_over_range
 
 /-- count_over_time: one sample per line -/
@@ -107,7 +108,7 @@ theorem C09_extract_count :
 /-- bytes_over_time: the byte length of the line -/
 theorem C09_extract_bytes :
     ∀ (env : Env) (uw : Option Unwrap) (e : Entry),
-      extract env RangeOp.bytes uw e = some (Val.q ↑(List.length e.line)) :=
+      extract env RangeOp.bytes uw e = some (Val.q (↑(List.length e.line) : Rat)) :=
   @extract_bytes
 
 /-- unwrap: a missing label contributes no sample -/
